@@ -241,6 +241,12 @@ fn synth_dump(k: u64) -> Vec<u8> {
                 .add(context)
                 .add_memory(stack)
         }
+        // BOTH a MemoryList and a Memory64List: --dump prints the 64-bit list as the unified one and then the plain list
+        7 => {
+            let far = synth::Memory::with_section(Section::with_endian(e).append_repeated(0x64, 0x180), 0x7000_0000_1000);
+            let near = synth::Memory::with_section(Section::with_endian(e).append_repeated(0x32, 0x60), 0x2000);
+            base().add_thread(thread).add_system_info(system_info).add(context).add_memory(stack).add_memory(near).add_memory64(far)
+        }
         // arm64 + crashpad info + handle
         _ => {
             let context = synth::arm64_context(e, 0x400800, 0x10000);
@@ -700,6 +706,10 @@ fn lib_get(st: &mut State, input: &str, in_path: &Path, src: &SymSrc, feat: u64,
     l
 }
 
+fn has_pre_cls(cls: &str) -> bool {
+    (cls.starts_with('x') && cls != "xL") || cls.starts_with('q')
+}
+
 fn sink_desc(bytes: &[u8], lib: &LibOut) -> String {
     let mut names: Vec<String> = lib.renderings.iter().filter(|(_, b)| b.as_slice() == bytes).map(|(n, _)| n.clone()).collect();
     if names.is_empty() && !bytes.is_empty() {
@@ -1085,6 +1095,16 @@ fn run(st: &mut State, line: &str) -> String {
             _ => {}
         }
     }
+    if as_nobody {
+        // the tool runs as uid 65534 in this case: what the harness (root) put there must stay writable for it
+        use std::os::unix::fs::PermissionsExt;
+        for (cls, path, which) in sinks.iter() {
+            if has_pre_cls(cls) {
+                let _ = std::fs::set_permissions(path, std::fs::Permissions::from_mode(0o666));
+                let _ = std::fs::set_permissions(casedir.join(format!("{}.target", which)), std::fs::Permissions::from_mode(0o666));
+            }
+        }
+    }
     let pre_len = |p: &Path, cls: &str| -> String {
         if cls == "-" || cls.starts_with('f') {
             return "-".into();
@@ -1092,7 +1112,7 @@ fn run(st: &mut State, line: &str) -> String {
         std::fs::metadata(p).map(|m| if m.is_file() { m.len().to_string() } else { "-".to_string() }).unwrap_or("-".into())
     };
     let pre_desc = format!("{}/{}/{}", pre_len(&out_path, out_cls), pre_len(&cy_path, cy_cls), pre_len(&log_path, log_cls));
-    let has_pre = |cls: &str| (cls.starts_with('x') && cls != "xL") || cls.starts_with('q');
+    let has_pre = has_pre_cls;
     let before: Vec<Option<Vec<u8>>> = sinks.iter().map(|(c, p, _)| if has_pre(c) { std::fs::read(p).ok() } else { None }).collect();
 
     // (a) the tool first: if it dies the same input is not fed to the library in this process
